@@ -11,6 +11,7 @@ import (
 	"encoding/json"
 	"fmt"
 	"os"
+	"runtime/debug"
 	"sort"
 	"strings"
 	"time"
@@ -21,7 +22,7 @@ import (
 
 func baseCfg(name string) *CfgA {
 	return &CfgA{Name: name, Val: 0, Vote: []sigSpec{{"A", 2}}, UpdateEvery: 1000000, Cooldown: 30, MinInterval: 60, MaxInterval: 120,
-		Grace: 30, DevBP: 50, Period: 3, Phase: 0, Lag: 2, Lat: []int{0, 2}, Menu: []string{"A", "Ahi-1", "Ahi", "UNAV", "MISS"}, Horizon: 130}
+		Grace: 30, DevBP: 50, Period: 3, Phase: 0, Lag: 2, Lat: []int{0, 2}, Menu: []string{"A", "Ahi-1", "Ahi", "UNAV", "MISS"}, MaxMiss: 2, Horizon: 130}
 }
 
 func configsA(quick bool) []*CfgA {
@@ -145,7 +146,7 @@ var requiredA = []string{
 	"a:deliver:accepted", "a:submit:first-price", "a:submit:slot-reached", "a:submit:deviation", "a:submit:deviation-exactly-at-threshold",
 	"a:submit:status-change", "a:submit:unavailable-close-to-deadline", "a:hold:cooldown-not-elapsed", "a:hold:unavailable-not-urgent",
 	"a:hold:below-deviation-threshold", "a:hold:in-flight", "a:block:feed-list-changed", "a:poll:second-submission-while-one-in-flight",
-	"a:deliver:rejected-feed-left-the-list-in-flight:feeds/4",
+	"a:deliver:rejected-feed-left-the-list-in-flight",
 }
 
 var requiredB = []string{
@@ -256,6 +257,9 @@ func compress(p []string) []string {
 func execB(r *engine.Run, quick bool, deadline time.Time) {
 	scs, bounds := scenariosB(quick)
 	only := os.Getenv("VERIF_C20_ONLY")
+	getEnvB()
+	old := debug.SetGCPercent(-1) // see the collection gate in partb.go
+	defer debug.SetGCPercent(old)
 	for i, sc := range scs {
 		if only != "" && !strings.Contains(sc.Name, only) {
 			continue
@@ -294,6 +298,7 @@ func init() {
 		ID: "C20",
 		Run: func(r *engine.Run) {
 			quick := r.Quick()
+			r.Notes = append(r.Notes, "shipped timing configuration: "+loadShipped())
 			part := os.Getenv("VERIF_C20_PART") // "", "a" or "b" (development)
 			cfgs := configsA(quick)
 			var names []string
